@@ -189,10 +189,10 @@ Definition guard_F5 (f : fixes) (m : mech) (sts : list (option Z)) : bool :=
 Theorem F5_refuted :
   let fr := {| r_id := 7; r_exp := Some 9000 |} in
   let h := [MReq 1 (Some (secs 3600)) fr 0; MAdv (secs 100); MReq 1 (Some (secs 5)) {| r_id := 8; r_exp := Some 9000 |} 0] in
-  guard_F5 fx_repo MIntro [Some (secs 3600); Some (secs 5)] = true /\
+  guard_F5 fx_before_F4 MIntro [Some (secs 3600); Some (secs 5)] = true /\
   wf_mhist max_delay h /\
-  In (MHit (secs 1100) (Some (secs 5)) fr) (runm Mem fx_repo MIntro (secs 1000) [] h) /\
-  ~ (exists tc ts ttl, In (MMiss tc ts (Some (secs 5)) fr (Some ttl)) (runm Mem fx_repo MIntro (secs 1000) [] h)).
+  In (MHit (secs 1100) (Some (secs 5)) fr) (runm Mem fx_before_F4 MIntro (secs 1000) [] h) /\
+  ~ (exists tc ts ttl, In (MMiss tc ts (Some (secs 5)) fr (Some ttl)) (runm Mem fx_before_F4 MIntro (secs 1000) [] h)).
 Proof.
   intros fr h. split; [vm_compute; reflexivity|]. split.
   - unfold wf_mhist, h. repeat (apply Forall_cons; [unfold max_delay, secs, ns_per_s; lia|]). apply Forall_nil.
@@ -218,3 +218,12 @@ Theorem hit_age_within_ttl_in_force_fixed : forall b f m,
     exists tc ts ttl,
       In (MMiss tc ts (Some c) v (Some ttl)) (runm b f m now0 [] h) /\ ttl <= c /\ ts <= t /\ t <= ts + ttl.
 Proof. intros b f m Hf. apply hit_age_within_ttl_in_force. apply key_has_ttl_fixed. exact Hf. Qed.
+
+(** non-vacuity of [hit_age_within_ttl_in_force]: with the ttl in the key a request
+    under the same ttl IS answered from cache *)
+Example mixed_hit_fixed :
+  let fr := {| r_id := 7; r_exp := Some 9000 |} in
+  In (MHit (secs 1010) (Some (secs 60)) fr)
+     (runm Mem fx_all MIntro (secs 1000) []
+        [MReq 1 (Some (secs 60)) fr 0; MAdv (secs 10); MReq 1 (Some (secs 60)) {| r_id := 8; r_exp := Some 9000 |} 0]).
+Proof. vm_compute. right. left. reflexivity. Qed.
